@@ -630,13 +630,17 @@ impl<'a> UserModel<'a> {
     /// * [Model::delete_sheet]
     pub fn delete_sheet(&mut self, sheet: u32) -> Result<(), String> {
         let worksheet = self.model.workbook.worksheet(sheet)?;
+        let sheet_count = self.model.workbook.worksheets.len() as u32;
+        if sheet_count == 1 {
+            // checked before anything is recorded or changed
+            return Err("Cannot delete only sheet".to_string());
+        }
 
         self.push_diff_list(vec![Diff::DeleteSheet {
             sheet,
             old_data: Box::new(worksheet.clone()),
         }]);
 
-        let sheet_count = self.model.workbook.worksheets.len() as u32;
         // If we are deleting the last sheet we need to change the selected sheet
         if sheet == sheet_count - 1 && sheet_count > 1 {
             if let Some(view) = self.model.workbook.views.get_mut(&self.model.view_id) {
@@ -1596,12 +1600,14 @@ impl<'a> UserModel<'a> {
     /// * [Model::set_frozen_rows()]
     pub fn set_frozen_rows_count(&mut self, sheet: u32, frozen_rows: i32) -> Result<(), String> {
         let old_value = self.model.get_frozen_rows_count(sheet)?;
+        // validate (and apply) first: a rejected call must not leave a history entry
+        self.model.set_frozen_rows(sheet, frozen_rows)?;
         self.push_diff_list(vec![Diff::SetFrozenRowsCount {
             sheet,
             new_value: frozen_rows,
             old_value,
         }]);
-        self.model.set_frozen_rows(sheet, frozen_rows)
+        Ok(())
     }
 
     /// Sets the number of frozen columns in sheet
@@ -1614,12 +1620,14 @@ impl<'a> UserModel<'a> {
         frozen_columns: i32,
     ) -> Result<(), String> {
         let old_value = self.model.get_frozen_columns_count(sheet)?;
+        // validate (and apply) first: a rejected call must not leave a history entry
+        self.model.set_frozen_columns(sheet, frozen_columns)?;
         self.push_diff_list(vec![Diff::SetFrozenColumnsCount {
             sheet,
             new_value: frozen_columns,
             old_value,
         }]);
-        self.model.set_frozen_columns(sheet, frozen_columns)
+        Ok(())
     }
 
     /// Paste `styles` in the selected area
@@ -2286,22 +2294,26 @@ impl<'a> UserModel<'a> {
 
     /// Sets the timezone for the model
     pub fn set_timezone(&mut self, timezone: &str) -> Result<(), String> {
-        let diff_list = vec![Diff::SetTimezone {
-            old_value: self.get_timezone(),
+        let old_value = self.get_timezone();
+        // validate (and apply) first: a rejected call must not leave a history entry
+        self.model.set_timezone(timezone)?;
+        self.push_diff_list(vec![Diff::SetTimezone {
+            old_value,
             new_value: timezone.to_string(),
-        }];
-        self.push_diff_list(diff_list);
-        self.model.set_timezone(timezone)
+        }]);
+        Ok(())
     }
 
     /// Sets the locale for the model
     pub fn set_locale(&mut self, locale: &str) -> Result<(), String> {
-        let diff_list = vec![Diff::SetLocale {
-            old_value: self.get_locale(),
+        let old_value = self.get_locale();
+        // validate (and apply) first: a rejected call must not leave a history entry
+        self.model.set_locale(locale)?;
+        self.push_diff_list(vec![Diff::SetLocale {
+            old_value,
             new_value: locale.to_string(),
-        }];
-        self.push_diff_list(diff_list);
-        self.model.set_locale(locale)
+        }]);
+        Ok(())
     }
 
     /// Gets the timezone of the model
